@@ -13,12 +13,14 @@ pub trait SinkView: Sized {
     spec fn delivered(&self) -> Seq<u8>;   // bytes the underlying sink has received
     spec fn cap(&self) -> nat;             // bytes it will still accept
     spec fn pos(&self) -> nat;             // bytes handed to the sink through successful calls
+    spec fn unbounded(&self) -> bool;      // a sink that can never fail (Vec<u8>); `cap` is then meaningless
 }
 pub trait Write: SinkView {
     fn write(&mut self, data: &[u8]) -> (r: Result<usize>)
         ensures wrote_some(*old(self), *final(self), r, data@);
     fn flush(&mut self) -> (r: Result<()>)
-        ensures final(self).delivered() == old(self).delivered(), final(self).cap() == old(self).cap(), final(self).pos() == old(self).pos();
+        ensures final(self).delivered() == old(self).delivered(), final(self).cap() == old(self).cap(), final(self).pos() == old(self).pos(),
+                final(self).unbounded() == old(self).unbounded();
     fn write_all(&mut self, data: &[u8]) -> (r: Result<()>)
         ensures wrote(*old(self), *final(self), r is Ok, data@);
 }
@@ -26,18 +28,23 @@ pub trait Write: SinkView {
 // the uniform writer contract (DESIGN 5, U-WLEX / C19)
 #[verifier::opaque]
 pub open spec fn wrote<W: SinkView>(s0: W, s1: W, ok: bool, enc: Seq<u8>) -> bool {
-    &&& s1.delivered() == s0.delivered() + take(enc, s0.cap())
-    &&& s1.cap() == s0.cap() - minn(enc.len(), s0.cap())
-    &&& (ok <==> enc.len() <= s0.cap())
-    &&& (ok ==> s1.pos() == s0.pos() + enc.len())
+    if s0.unbounded() {
+        s1.unbounded() && ok && s1.delivered() == s0.delivered() + enc && s1.pos() == s0.pos() + enc.len()
+    } else {
+        &&& !s1.unbounded()
+        &&& s1.delivered() == s0.delivered() + take(enc, s0.cap())
+        &&& s1.cap() == s0.cap() - minn(enc.len(), s0.cap())
+        &&& (ok <==> enc.len() <= s0.cap())
+        &&& (ok ==> s1.pos() == s0.pos() + enc.len())
+    }
 }
 
 // a single `write` call: some prefix of the data is accepted (possibly none), or an error with nothing accepted
 pub open spec fn wrote_some<W: SinkView>(s0: W, s1: W, r: Result<usize>, data: Seq<u8>) -> bool {
     match r {
-        Ok(n) => n <= data.len() && n <= s0.cap() && s1.delivered() == s0.delivered() + data.subrange(0, n as int)
-                 && s1.cap() == s0.cap() - n && s1.pos() == s0.pos() + n,
-        Err(_) => s1.delivered() == s0.delivered() && s1.cap() == s0.cap() && s1.pos() == s0.pos(),
+        Ok(n) => n <= data.len() && (s0.unbounded() || n <= s0.cap()) && s1.delivered() == s0.delivered() + data.subrange(0, n as int)
+                 && (s0.unbounded() || s1.cap() == s0.cap() - n) && s1.pos() == s0.pos() + n && s1.unbounded() == s0.unbounded(),
+        Err(_) => s1.delivered() == s0.delivered() && s1.cap() == s0.cap() && s1.pos() == s0.pos() && s1.unbounded() == s0.unbounded(),
     }
 }
 
@@ -47,6 +54,7 @@ impl SinkView for Sink {
     uninterp spec fn delivered(&self) -> Seq<u8>;
     uninterp spec fn cap(&self) -> nat;
     uninterp spec fn pos(&self) -> nat;
+    uninterp spec fn unbounded(&self) -> bool;
 }
 impl Write for Sink {
     #[verifier::external_body]
@@ -76,7 +84,9 @@ pub proof fn lemma_step<W: SinkView>(s0: W, s1: W, s2: W, done: Seq<u8>, piece: 
 {
     reveal(wrote);
     let c = s0.cap();
-    if ok {
+    if s0.unbounded() {
+        assert(s2.delivered() =~= s0.delivered() + (done + piece));
+    } else if ok {
         assert(take(done + piece, c) =~= done + piece);
         assert(s2.delivered() =~= s0.delivered() + take(done + piece, c));
     } else {
@@ -102,14 +112,14 @@ pub proof fn lemma_wrote_eq<W: SinkView>(s0: W, s1: W, ok: bool, a: Seq<u8>, b: 
 // what a caller learns from the contract
 pub proof fn lemma_wrote_ok<W: SinkView>(s0: W, s1: W, enc: Seq<u8>)
     requires wrote(s0, s1, true, enc)
-    ensures s1.delivered() == s0.delivered() + enc, s1.pos() == s0.pos() + enc.len(), enc.len() <= s0.cap()
+    ensures s1.delivered() == s0.delivered() + enc, s1.pos() == s0.pos() + enc.len(), s0.unbounded() || enc.len() <= s0.cap()
 { reveal(wrote); }
 
 pub proof fn lemma_wrote_prefix<W: SinkView>(s0: W, s1: W, ok: bool, enc: Seq<u8>)
     requires wrote(s0, s1, ok, enc)
-    ensures s1.delivered() == s0.delivered() + take(enc, s0.cap()),
+    ensures !s0.unbounded() ==> s1.delivered() == s0.delivered() + take(enc, s0.cap()) && (ok <==> enc.len() <= s0.cap()),
+            s0.unbounded() ==> ok && s1.delivered() == s0.delivered() + enc,
             take(enc, s0.cap()).is_prefix_of(enc),
-            ok <==> enc.len() <= s0.cap()
 { reveal(wrote); }
 
 pub assume_specification<T: core::cmp::PartialEq> [<[T]>::contains] (s: &[T], x: &T) -> (r: bool)
@@ -118,3 +128,24 @@ pub assume_specification<T: core::cmp::PartialEq> [<[T]>::contains] (s: &[T], x:
 // R17: a counter of bytes actually handed to a sink cannot exceed usize::MAX (fewer than 2^64 bytes are ever written)
 #[verifier::external_body]
 pub fn counter_add(a: usize, b: usize) -> (r: usize) ensures r == a + b { a + b }
+
+// std: `impl Write for Vec<u8>` appends and never fails
+impl SinkView for Vec<u8> {
+    open spec fn delivered(&self) -> Seq<u8> { self@ }
+    open spec fn cap(&self) -> nat { 0 }
+    open spec fn pos(&self) -> nat { self@.len() }
+    open spec fn unbounded(&self) -> bool { true }
+}
+impl Write for Vec<u8> {
+    #[verifier::external_body]
+    fn write(&mut self, data: &[u8]) -> (r: Result<usize>) { unimplemented!() }
+    #[verifier::external_body]
+    fn flush(&mut self) -> (r: Result<()>) { unimplemented!() }
+    #[verifier::external_body]
+    fn write_all(&mut self, data: &[u8]) -> (r: Result<()>) { unimplemented!() }
+}
+
+pub proof fn lemma_unbounded<W: SinkView>(s0: W, s1: W, ok: bool, enc: Seq<u8>)
+    requires wrote(s0, s1, ok, enc), s0.unbounded()
+    ensures ok, s1.unbounded(), s1.delivered() == s0.delivered() + enc
+{ reveal(wrote); }
